@@ -33,6 +33,7 @@ type CaseOpts struct {
 	NoNsStages bool
 	Cmd        *Node  // if set, used as the command document instead of a generated one
 	Msg        string // if set, the line's msg (an OTHER-component line with another msg is outside the line gate)
+	AttrNs     string // if set, the text of attr.ns (default: DB.Coll)
 }
 
 func (g *Gen) lsid() *Node {
@@ -269,6 +270,9 @@ func (g *Gen) Case(o CaseOpts) *Case {
 	line := ObjN("t", keep(ObjN("$date", StrN(g.ISODate()))), "s", KeepS("I"), "c", KeepS(comp), "id", KeepI(51803), "ctx", KeepS(fmt.Sprintf("conn%d", g.rng(1, 99999))), "msg", KeepS(msg))
 	attr := ObjN()
 	nsFull := StrN(cs.DB + "." + cs.Coll).With(&Tag{Role: NsFull})
+	if o.AttrNs != "" {
+		nsFull = StrN(o.AttrNs).With(&Tag{Role: NsFull})
+	}
 	switch cs.Carrier {
 	case "command":
 		typ := "command"
